@@ -10,6 +10,8 @@ Sub-checks
   inspectors      real inspectors, metamorphic: verdict under a generated
                   schedule (with queries) == verdict under 512-byte chunks,
                   for all ten inspectors; retention fidelity after each chunk
+  cuts            deterministic: every single cut / every pair of boundary-
+                  aimed cuts of one well-formed image per format
   wrapper         InspectWrapper.format/formats after close() equal across
                   read sizes, read() vs iteration, empty reads
 """
@@ -665,6 +667,55 @@ def wrapper(col, seed, max_examples, fmts, allow_tiny, max_len):
                    seed, max_examples)
 
 
+def cuts_family(col, fmt, params):
+    """Deterministic net under the random search: for one well-formed
+    image, every single cut position (small images) or every cut at +-1 of a
+    structure boundary (large ones), every pair of boundary-aimed cuts, and
+    the boundary-aimed single cuts again with a query after every chunk."""
+    from vcheck import imggen
+    sub = 'cuts'
+    img = imggen.build(fmt, params)
+    n = len(img.data)
+    content = {'base': [fmt, params], 'kind': 'valid'}
+    cands = chunking.boundary_cut_candidates(n, img.boundaries)
+    small = n <= 4096
+    names = None if small else [fmt]
+    singles = range(1, n) if small else cands
+    for c in singles:
+        check_inspectors(col, {'content': content,
+                               'schedule': chunking.from_cuts(n, [c]),
+                               'queries': None}, sub, names=names)
+    for c in cands:
+        check_inspectors(col, {'content': content,
+                               'schedule': chunking.from_cuts(n, [c]),
+                               'queries': [0, 1]}, sub, names=names)
+    if len(cands) > 40:
+        step = -(-len(cands) // 40)
+        cands = cands[::step]
+    for i, a in enumerate(cands):
+        for b in cands[i + 1:]:
+            check_inspectors(col, {'content': content,
+                                   'schedule': chunking.from_cuts(n, [a, b]),
+                                   'queries': None}, sub, names=[fmt])
+    for k in (1, 3, 17, 64) if small else ():
+        check_inspectors(col, {'content': content, 'schedule': ['fixed', k],
+                               'queries': list(range(0, min(n // k + 1, 64)))},
+                         sub, names=[fmt])
+    col.exhaustive.setdefault(sub, True)
+
+
+CUTS_IMAGES = (
+    ('qcow2', dict(length=1024)), ('qcow2', dict(version=2, length=600)),
+    ('vhd', dict(length=700)), ('vdi', dict(length=700)),
+    ('qed', dict(length=600)), ('gpt', dict(length=1024)),
+    ('luks', dict(payload_offset=2, payload=100)),
+    ('vmdk', dict()), ('vmdk', dict(footer=True)),
+    ('vmdk', dict(footer=True, desc_num=2, grain_data=100)),
+    ('iso', dict(tail=100)), ('vhdx', dict()),
+    ('vhdx', dict(meta_before=3, region_before=2, item_offset=65544)),
+)
+
+
 # --------------------------------------------------------------------- tasks
 
 SMALL = ('raw', 'qcow2', 'vhd', 'vmdk', 'vdi', 'qed', 'gpt', 'luks')
@@ -684,6 +735,8 @@ def tasks(tier, seed):
             if la + lb + lc <= n:
                 out.append(Task('engine/chain', engine_chain, n=n, la=la,
                                 lb=lb, lc=lc))
+    for fmt, params in CUTS_IMAGES:
+        out.append(Task('cuts', cuts_family, fmt=fmt, params=params))
     if tier == 'quick':
         plan = [(SMALL, True, 70000, 400, 5), (('iso',), True, 40000, 150, 2),
                 (('vhdx',), False, 700 * KI, 120, 5)]
